@@ -332,8 +332,11 @@ def run_shard(ctx, prm):
             # channel names over all printable ASCII (lower case, punctuation, right-justified, blank inside)
             data, model = G.random_file(rng, name_alphabet=G.WIDE_NAME_ALPHABET)
         else:
-            data, model = G.random_file(rng)
+            # a quarter of the passes with fewer than 20 channels carry something other than blanks in the unused name slots
+            data, model = G.random_file(rng, unused_slot_fill_p=0.25)
         classes = ['passes=%d' % len(model.passes)]
+        if any('name_fill' in p.header_fields for p in model.passes):
+            classes.append('unused-name-slots-not-blank')
         if any(len(p.block_frames) >= 300 for p in model.passes):
             classes.append('blocks>=300')
         if any(4 * p.channels * b in (276, 12) for p in model.passes for b in p.block_frames):
